@@ -111,7 +111,7 @@ def run(ctx, drv, prop="C01"):
                            "{unconstrained, constrained} x {min, max, mixed} x evaluators {map, pickled copies, thread-pool submit, "
                            "apply-async, process pool} x {default, explicit} operators, injected populations, small rate of extreme random "
                            "draws in a sub-stream; one case = one run (3-8 steps); non-trivial = more solutions submitted than one "
-                           "population; distinct by (algorithm, type, seed, budget, evaluator)")
+                           "population; distinct by (algorithm, type, seed, budget, evaluator) + mixed-type problems (Real first, list-encoded variables after) with compound operators; functions returning exact big ints; sign-of-zero sensitive functions on populations of 0.0 / -0.0 twins")
     reqs, post = [], []
 
     def ask(line, fn):
@@ -142,10 +142,87 @@ def run(ctx, drv, prop="C01"):
         cfg["extra"] = {"leader": rng.choice([2, 3, 4])}
         check_run(ctx, cfg, [cfg["size"] * 60], ask, prop)
         ctx.count("long_pso_runs")
+    if prop == "C01":
+        special_functions(ctx, rng)
     if drv.ok:
         out = drv.batch(reqs)
         for g, fn in zip(out, post):
             fn(g)
+
+
+def _bigint_f(weights):
+    def f(x):
+        z = []
+        for v in x:
+            z.extend(v if isinstance(v, list) else [v])
+        return [sum(w * int(b) for w, b in zip(weights[0], z)), sum(w * (1 - int(b)) for w, b in zip(weights[1], z))]
+    return f
+
+
+def _signed_f(x):
+    import math
+    return [math.atan2(x[0], -1.0) + x[1], math.copysign(1.0, x[0]) * (2.0 + x[1])]
+
+
+def special_functions(ctx, rng):
+    """problem functions outside the weighted-sum family of the traced problems, judged by the statement only: outputs that are
+    exact Python ints beyond 2**53 (what the function returns is what the solution must carry), and a function that can tell
+    0.0 from -0.0 evaluated on populations containing such twins"""
+    import random as _random
+    from platypus import Problem, Binary, Real, InjectedPopulation, algorithms as A
+    from platypus import core as C
+    for name in ("NSGAII", "SPEA2", "GeneticAlgorithm", "EvolutionaryStrategy"):
+        nb = 12
+        weights = [[rng.randrange(2 ** 61, 2 ** 62) | 1 for _ in range(nb)], [rng.randrange(2 ** 61, 2 ** 62) | 1 for _ in range(nb)]]
+        single = name in ("GeneticAlgorithm", "EvolutionaryStrategy")
+        f = _bigint_f(weights)
+        p = Problem(1, 1 if single else 2, function=(lambda x, f=f: [f(x)[0]]) if single else f)
+        p.types[:] = Binary(nb)
+        _random.seed(rng.randrange(2 ** 31))
+        alg = getattr(A, name)(p, population_size=8) if not single else getattr(A, name)(p, population_size=8, offspring_size=8)
+        r = plat_call(lambda: alg.run(60))
+        inp = {"algorithm": name, "function": "sums of 62-bit integer weights over a 12-bit string (exact ints)"}
+        if isinstance(r, str):
+            ctx.notes.append(f"special-function run aborted: {name}: {r}")
+            continue
+        for coll, sols in tracer.exposed(alg).items():
+            for s_ in sols:
+                want = (f(list(s_.variables))[:1] if single else f(list(s_.variables)))
+                if not s_.evaluated or [o for o in s_.objectives] != want:
+                    ctx.fail("objectives-do-not-belong-to-variables", dict(inp, collection=coll, variables=repr(list(s_.variables))), [repr(o) for o in s_.objectives],
+                             [repr(o) for o in want], f"algorithms.{name} / core.Problem.evaluate")
+                    break
+        ctx.case(("bigint", name), True)
+    for name in ("NSGAII", "SPEA2", "GDE3", "SMPSO"):
+        p = Problem(2, 2, function=_signed_f)
+        p.types[:] = Real(-1, 1)
+        twins = []
+        for y in (0.25, -0.5, 0.75, 0.0):
+            for z in (0.0, -0.0):
+                s_ = C.Solution(p)
+                s_.variables[:] = [z, y]
+                twins.append(s_)
+        _random.seed(rng.randrange(2 ** 31))
+        alg = getattr(A, name)(p, population_size=8, generator=InjectedPopulation(twins)) if name != "SMPSO" else A.SMPSO(p, swarm_size=8, leader_size=8, generator=InjectedPopulation(twins))
+        r = plat_call(lambda: alg.run(24))
+        inp = {"algorithm": name, "function": "atan2(x0, -1) + x1, copysign(1, x0)(2 + x1); initial population of (0.0, y) / (-0.0, y) twins"}
+        if isinstance(r, str):
+            ctx.notes.append(f"special-function run aborted: {name}: {r}")
+            continue
+        for coll, sols in tracer.exposed(alg).items():
+            for s_ in sols:
+                want = _signed_f(list(s_.variables))
+                if not s_.evaluated or list(s_.objectives) != want:
+                    ctx.fail("objectives-do-not-belong-to-variables", dict(inp, collection=coll, variables=[repr(v) for v in s_.variables]), list(s_.objectives), want,
+                             f"algorithms.{name} / core.Algorithm.evaluate_all")
+                    break
+        ctx.case(("signed-zero", name), True)
+    ctx.count("special_function_runs", 8)
+
+
+def plat_call(f):
+    import plat
+    return plat.call(f)
 
 
 def replay(ctx, path):
